@@ -119,6 +119,9 @@ type k2Sys struct {
 	checked []bool // result of ops[i] already compared with the model
 	lifeOp  *qsched.Op
 	issued  int
+	// probe "queue-lock": the queue was modified while the harness held the queue's own mutex
+	probeMutated bool
+	probeNote    string
 }
 
 var k2LogOnce sync.Once
@@ -283,6 +286,8 @@ func (a k2Action) String() string {
 		return "query:" + a.Name
 	case "gate":
 		return "gate:" + a.Name
+	case "probe":
+		return "probe:" + a.Name
 	case "kstop":
 		return "keeper.Stop()"
 	case "kstart":
@@ -411,6 +416,24 @@ func (k *k2Sys) do(a k2Action) []qsched.GoroutineInfo {
 		if !k.s.Release(a.Name) {
 			vk.Fatalf("gate %s not parked", a.Name)
 		}
+	case "probe":
+		// Lock-discipline probe (deterministic; nothing is inferred from timing): plotterQueue.Delete - called by
+		// StopWS/RemoveWS/DeleteWS - rebuilds the queue while holding the queue's mutex. The harness takes that
+		// mutex in its place and lets a plot request reach a plotter that waits in its idle select. If the
+		// plotter's addSpaces took the mutex for its Push it would block and the queue would keep its size.
+		q := sk.queue
+		q.Lock()
+		before := q.Prque.Size()
+		sid := k.sidOf(0)
+		k.ops = append(k.ops, k.s.Start("plot(a)", func() (interface{}, error) { return nil, sk.ActOnWorkSpace(sid, engine.Plot) }))
+		k.opDesc = append(k.opDesc, "plot(a)")
+		k.opAct = append(k.opAct, a)
+		k.checked = append(k.checked, true)
+		k.quiesce()
+		after := q.Prque.Size()
+		q.Unlock()
+		k.probeMutated = after != before
+		k.probeNote = fmt.Sprintf("queue size %d -> %d while the harness held plotterQueue's mutex", before, after)
 	case "kstop":
 		k.lifeOp = k.s.Start("keeper.Stop", func() (interface{}, error) { return nil, sk.Stop() })
 		k.issued++
@@ -554,7 +577,11 @@ func (k *k2Sys) stateKey(blocked []qsched.GoroutineInfo, hist string) string {
 	var sb strings.Builder
 	for i, ws := range k.ws {
 		m := k.model[i]
-		fmt.Fprintf(&sb, "%s:%s u=%v m=%s/%v/%v ask=%v/%v idx=", k2Names[i], ws.state, ws.using, m.State, m.Used, m.Deleted, m.AskedAny, m.AskedMine)
+		via := ""
+		if m.Used && !m.AskedAny {
+			via = m.StopVia // decides the site a later sticky-stop violation is reported under
+		}
+		fmt.Fprintf(&sb, "%s:%s u=%v m=%s/%v/%v ask=%v/%v/%s idx=", k2Names[i], ws.state, ws.using, m.State, m.Used, m.Deleted, m.AskedAny, m.AskedMine, via)
 		sid := ws.id.String()
 		for s := engine.FirstState; s <= allState; s++ {
 			if k.sk.workSpaceIndex[s].Has(sid) {
@@ -588,10 +615,14 @@ func (k *k2Sys) stateKey(blocked []qsched.GoroutineInfo, hist string) string {
 		pend = append(pend, k.lifeOp.Name)
 	}
 	fmt.Fprintf(&sb, "pending=%v running=%v", pend, k.sk.Started())
+	// where the plotter and its monitor are blocked matters for futures (sorted: the dump order varies)
+	var pl []string
 	for _, g := range blocked {
 		if strings.Contains(g.Stack, "spacePlotter") {
-			fmt.Fprintf(&sb, " plotter=%s", g.Reason)
+			pl = append(pl, g.Reason)
 		}
 	}
+	sort.Strings(pl)
+	fmt.Fprintf(&sb, " plotter=%v", pl)
 	return sb.String()
 }
